@@ -32,6 +32,9 @@ type LoopSpec struct {
 	Decreases  *Clause
 	Modifies   []string
 	NoTerm     bool
+	Hints      []*Clause
+	CaseDims   [][]*Clause
+	caseTerms  [][]string // evaluated at the start of the body of the current execution
 }
 
 type Contract struct {
@@ -46,6 +49,7 @@ type Contract struct {
 	Modifies []string // heap names the function may modify; nil = unspecified (checked: nothing), "all"
 	ModSet   bool
 	Iters    map[string]*LoopSpec
+	Hints    []*Clause
 	Panics   bool // explicit panics allowed
 	PanicPost []*Clause
 	Pure     bool
@@ -214,6 +218,9 @@ func matchClose(s string, i int) int {
 var tagRe = regexp.MustCompile(`^(\w+)\[([A-Z]\d+)\]$`)
 
 // parseContracts reads the //@ blocks of a contract file.
+// parsedFolds collects the fold/sum directives per package path while contract files are read.
+var parsedFolds = map[string][]*FoldDecl{}
+
 func parseContracts(file string, pkgPath string) ([]*Contract, error) {
 	data, err := os.ReadFile(file)
 	if err != nil {
@@ -316,6 +323,40 @@ func parseContracts(file string, pkgPath string) ([]*Contract, error) {
 			loop.Decreases = mk("decreases")
 		case "noterm":
 			loop.NoTerm = true
+		case "fold", "sum":
+			fd, err := parseFoldDirective(kw, rest)
+			if err != nil {
+				return nil, fmt.Errorf("%s:%d: %v", file, ln+1, err)
+			}
+			parsedFolds[pkgPath] = append(parsedFolds[pkgPath], fd)
+		case "cases":
+			// proof by cases for the loop's preservation obligations: `cases c1; c2; ...` is one dimension (the implicit
+			// last case is "none of them"); several `cases` lines multiply. Conditions are evaluated at the start of the body.
+			if loop == nil {
+				return nil, fmt.Errorf("%s:%d: cases outside loop", file, ln+1)
+			}
+			var dim []*Clause
+			for _, part := range splitTop(rest, ';') {
+				part = strings.TrimSpace(part)
+				if part != "" {
+					dim = append(dim, &Clause{Kind: "cases", Text: part, Line: ln + 1})
+				}
+			}
+			loop.CaseDims = append(loop.CaseDims, dim)
+		case "hint":
+			// trigger seeds for the fold split axioms: `hint e1; e2; ...`
+			for _, part := range splitTop(rest, ';') {
+				part = strings.TrimSpace(part)
+				if part == "" {
+					continue
+				}
+				cl := &Clause{Kind: "hint", Text: part, Line: ln + 1}
+				if loop != nil {
+					loop.Hints = append(loop.Hints, cl)
+				} else {
+					cur.Hints = append(cur.Hints, cl)
+				}
+			}
 		default:
 			return nil, fmt.Errorf("%s:%d: unknown contract keyword %q", file, ln+1, kw)
 		}
@@ -336,6 +377,7 @@ type Pkg struct {
 	ByName    map[string]*Contract
 	FuncDecls map[string]*ast.FuncDecl // unit-style name -> decl
 	Injected  map[ast.Stmt]bool
+	Folds     map[string]*FoldDecl
 	Loops     map[*ast.FuncDecl][]ast.Stmt // loops in source order per function
 	Errors    []string
 }
@@ -356,6 +398,7 @@ func loadWorld(repo string, only []string) (*World, error) {
 	if len(pats) == 0 {
 		pats = targetPkgs
 	}
+	parsedFolds = map[string][]*FoldDecl{}
 	cfg := &packages.Config{
 		Mode:       packages.NeedName | packages.NeedFiles | packages.NeedSyntax | packages.NeedTypes | packages.NeedTypesInfo | packages.NeedImports | packages.NeedDeps | packages.NeedTypesSizes,
 		Dir:        repo,
@@ -392,6 +435,12 @@ func loadWorld(repo string, only []string) (*World, error) {
 					return nil, err
 				}
 				pk.Contracts = append(pk.Contracts, cs...)
+			}
+		}
+		if fds := parsedFolds[p.PkgPath]; len(fds) > 0 {
+			pk.Folds = map[string]*FoldDecl{}
+			for _, fd := range fds {
+				pk.Folds[fd.Name] = fd
 			}
 		}
 		pk.index()
@@ -573,6 +622,13 @@ func (pk *Pkg) injectAndRecheck(w *World) error {
 			}
 			injPost = append(injPost, s)
 		}
+		for _, cl := range c.Hints {
+			s, err := mkStmt(cl)
+			if err != nil {
+				return err
+			}
+			injPost = append(injPost, s)
+		}
 		var iterNames []string
 		for n := range c.Iters {
 			iterNames = append(iterNames, n)
@@ -642,6 +698,10 @@ func (pk *Pkg) injectAndRecheck(w *World) error {
 			cls := append([]*Clause{}, ls.Invariants...)
 			if ls.Decreases != nil {
 				cls = append(cls, ls.Decreases)
+			}
+			cls = append(cls, ls.Hints...)
+			for _, dim := range ls.CaseDims {
+				cls = append(cls, dim...)
 			}
 			for _, cl := range cls {
 				s, err := mkStmt(cl)
